@@ -91,17 +91,25 @@ def pre_state(P, A):
         ro = B.running_order(stories, lead=P.get('lead', 2), gap=g, trail=P.get('trail', 0))
         if P.get('prehist'):
             B.prehist_replace(ro)
+        if P.get('prefail'):
+            from . import history
+            history.failed_attempts(ro, level='story')
         return ro, (lambda: B.rc_of(ro)), ids, {'addr': None}
     # item level: two stories; the addressed one holds the N symbolic item IDs, the other one
     # holds items with the *same* IDs in reverse order (item IDs may repeat across stories)
     addr_id, other_id = A['p0'], A['p1']
     addressed = mk_story(addr_id, ids, lead=P.get('lead', 2), gap=g, extra_tail=bool(P.get('trail', 0)),
                          timing=timing())
-    other = mk_story(other_id, list(reversed(ids)), lead=2, timing=timing(), decoy=dec)
+    # ... and items with the IDs the message carries (an item ID only has to be unique inside its story)
+    carried_ids = [A[n] for n in sorted(A) if n[0] == 'n' and n[1:].isdigit()]
+    other = mk_story(other_id, list(reversed(ids)) + carried_ids, lead=2, timing=timing(), decoy=dec)
     order = [addressed, other] if P.get('w', 0) == 0 else [other, addressed]
     ro = B.running_order(order, lead=2)
     if P.get('prehist'):
         B.prehist_replace(ro)
+    if P.get('prefail'):
+        from . import history
+        history.failed_attempts(ro, addr=addr_id, level='item')
 
     def cont():
         for s in B.rc_of(ro).findall('story'):
@@ -289,10 +297,13 @@ def order_cell(P, A):
     sent = list(new_ids)
     if dup is not None:
         sent[dup] = ids[A['d']]
+    same = P.get('same')  # index into new_ids of the replacement that keeps the replaced element's own ID
+    if same is not None:
+        sent[same] = ids[t]
     msg = build_message(P, ids, tgt, srcs, sent, addr=ctx['addr'])
     out = B.merge(ro, msg)
     after = keys(level, cont())
-    eff_new = [n for j, n in enumerate(new_ids) if j != dup]
+    eff_new = [sent[j] for j, n in enumerate(new_ids) if j != dup]
     exp = model(op, before, t, us, eff_new)
     ok = (not out.raised) and after == exp
     if ok and (after != before or op == 'roStorySend'):
